@@ -1827,17 +1827,31 @@ def run(ctx):
     specs += product_specs(ctx.rng, 6 if ctx.tier == "quick" else 40)
     nspecs = name_specs(ctx.rng)
     specs += nspecs
-    while len(specs) < ncorpus + n_random + len(nspecs):      # the name enumeration does not eat into the random part
+    fspecs = fault_specs(ctx.rng, 1 if ctx.tier == "quick" else 6)
+    specs += fspecs
+    while len(specs) < ncorpus + n_random + len(nspecs) + len(fspecs):      # the enumerations do not eat into the random part
         specs.append(gen_spec(ctx.rng))
     outs = run_many(specs)
     cases, terms = [], []
     nontrivial = set()
     harness_errors = []
+    env_errors = []
     for spec, (res, _) in zip(specs, outs):
         if "harness_error" in res or "hints_error" in res:
             harness_errors.append(res.get("harness_error") or res.get("hints_error"))
             continue
+        env = spec_env(spec)
+        if res.get("env_seen") != env:
+            env_errors.append("asked for %r, wpilib.DriverStation reported %r" % (env, res.get("env_seen")))
         an = analyse(spec, res["inherited"])
+        ctx.count("driver-station=FMS-%s|%s" % ("attached" if env["fms"] else "not-attached", "enabled" if env["enabled"] else "disabled"))
+        for f in an["faults"]:
+            ctx.count("fault-vs-fms=%s/%s|FMS-%s" % (f[0], f[3], "attached" if env["fms"] else "not-attached"))
+        if not an["faults"]:
+            ctx.count("fault-free|FMS-%s|%s" % ("attached" if env["fms"] else "not-attached",
+                                                "with-modes" if any(md["hints"] for md in spec["modes"]) else "no-mode-request"))
+        if "tag" in spec:
+            ctx.count("placed-fault=%s|FMS-%s" % (spec["tag"], "attached" if env["fms"] else "not-attached"))
         ctx.count("outcome=%s" % ["started", "MagicInjectError", "TypeError", "other"][res["outcome"]])
         ctx.count("path=%s" % spec["path"])
         ctx.count("components=%d" % len(an["comps"]))
@@ -1871,6 +1885,8 @@ def run(ctx):
         cases.append((spec, res))
         terms.append(emit_case(spec, res))
     ctx.obligation("harness:every generated robot definition could be built", not harness_errors, "; ".join(harness_errors[:3]))
+    ctx.obligation("harness:the driver station reported the requested state (FMS, enabled) while each robot started",
+                   not env_errors, "; ".join(env_errors[:3]))
     per = 250
     sh = shards(terms, per)
     items = [("cases_%d" % k, cases_file(x)) for k, x in enumerate(sh)]
@@ -1888,7 +1904,7 @@ def run(ctx):
                 json.dumps(cases[i0][0]), json.dumps({x: cases[i0][1].get(x) for x in ("outcome", "exc", "ctor", "setups", "final")}))
         elif rc != 0:
             bad_total += list(range(k * per, min(len(cases), (k + 1) * per)))
-        ctx.obligation("corr:%s (Inject.Model startup/observe == _create_components, %d robots)" % (name, len(sh[k])), ok, detail)
+        ctx.obligation("corr:%s (Inject.Model startup_in/observe == _create_components, %d robots)" % (name, len(sh[k])), ok, detail)
     samples = []
     for spec, res in cases[ncorpus + 100:ncorpus + 103]:
         samples.append({"robot": describe(spec), "outcome": res["outcome"], "ctor": res.get("ctor"), "final": res.get("final")})
@@ -1906,7 +1922,12 @@ def run(ctx):
                 "CALLED is enumerated too: all 19 proper substrings of 'logger', names containing it, case variants, trailing / "
                 "double underscores, upper case, digits x {attribute, ctor parameter, mode attribute} x {plain name, plain and "
                 "prefixed name} (+ prefixed only / wrong type), every third product robot and a quarter of the random robots "
-                "draw names from that pool (see unusual-name=*), "
+                "draw names from that pool (see unusual-name=*); every robot is started while the simulated driver station reports a "
+                "chosen state -- FMS attached or not, robot enabled or not (driver-station=*): half of every product combination, "
+                "half of every forced relation and 40% of the random robots start with the FMS attached; unservable requests are also "
+                "placed deliberately: 13 (constructors 15) failure kinds x {component attribute, constructor parameter, "
+                "autonomous-mode attribute} x {FMS attached, not attached} x {alone, among well-formed components / modes} "
+                "(placed-fault=*, fault-vs-fms=*), "
                 "then 60% fault-free / 30% one planted fault / 10% wild; non-trivial = started with >= 2 components and a "
                 "cross-component reference or >= 3 injected attributes, or exactly one fault",
         "samples": samples, "exhaustive": False, "corpus_cases": ncorpus})
@@ -1940,6 +1961,8 @@ def replay(ctx, obj):
         spec = obj["spec"]
         res, vs = child_call(run_batch, [spec], True)[0]
         print("robot: %s" % describe(spec))
+        if "env_seen" in res:
+            print("driver station while starting: asked %s; wpilib.DriverStation reported %s" % (env_text(spec_env(spec)), env_text(res["env_seen"])))
         if "harness_error" in res:
             print("cannot build: %s" % res["harness_error"])
             return 1
